@@ -147,6 +147,10 @@ func Draw(t *sim.Tape, p DrawParams) *Workload {
 			st.Ops = append(st.Ops, simfn.Op{"op": "condition", "type": typ, "status": []string{"True", "False"}[t.Next(2)], "reason": "ForgedByFunction", "message": "forged-marker", "target": []string{"", "both"}[t.Next(2)]})
 			st.Ops = append(st.Ops, simfn.Op{"op": "result", "severity": []string{"normal", "warning"}[t.Next(2)], "message": "result-from-" + st.Name})
 		}
+		if p.Requirements && i > 0 && t.Next(6) == 0 {
+			// a later step that replaces an entry by a body-less one
+			st.Ops = append(st.Ops, simfn.Op{"op": "blank", "name": pool[t.Next(len(pool))]})
+		}
 		if p.Requirements && t.Next(2) == 0 {
 			switch t.Next(5) {
 			case 4:
